@@ -48,7 +48,15 @@ pub enum GridCall {
     /// `FrameBuf::with_size`
     FrameBufWithSize { channels: u64, size: u64 },
     /// `encode_with_fixed_block_size` (single-thread) with a source that declares this format and this block size
-    Encode { rate: u64, channels: u64, bits: u64, block: u64 },
+    Encode {
+        rate: u64,
+        channels: u64,
+        bits: u64,
+        block: u64,
+        /// the source holds no samples at all (the invalid argument must be rejected all the same)
+        #[serde(default)]
+        empty: bool,
+    },
 }
 
 #[derive(Serialize, Deserialize, Clone, Debug, PartialEq)]
@@ -293,7 +301,7 @@ fn grid_invalid(call: &GridCall) -> bool {
     match call {
         GridCall::StreamNew { rate, channels, bits } => bad_fmt(*rate, *channels, *bits),
         GridCall::FrameBufWithSize { channels, size } => *channels == 0 || *channels > 8 || !(32..=32767).contains(size),
-        GridCall::Encode { rate, channels, bits, block } => bad_fmt(*rate, *channels, *bits) || !(32..=32767).contains(block),
+        GridCall::Encode { rate, channels, bits, block, .. } => bad_fmt(*rate, *channels, *bits) || !(32..=32767).contains(block),
     }
 }
 
@@ -310,13 +318,13 @@ fn exec_grid(case: &Case, call: &GridCall, stats: &mut Stats) -> Option<Violatio
             a || b
         }
         GridCall::FrameBufWithSize { channels, size } => FrameBuf::with_size(us(*channels), us(*size)).is_ok(),
-        GridCall::Encode { rate, channels, bits, block } => {
+        GridCall::Encode { rate, channels, bits, block, empty } => {
             let ch_data = us(*channels).clamp(1, 8);
             let src = FormatSource {
                 rate: us(*rate),
                 channels: us(*channels),
                 bits: us(*bits),
-                inner: MemSource::from_samples(&vec![0i32; 64 * ch_data], ch_data, 16, 44100),
+                inner: MemSource::from_samples(&vec![0i32; if *empty { 0 } else { 64 * ch_data }], ch_data, 16, 44100),
             };
             let cfg = CfgSpec::default_spec().build(false, None, 4096);
             flacenc::encode_with_fixed_block_size(&cfg, src, us(*block)).is_ok()
@@ -393,7 +401,13 @@ fn gen_grid(r: &mut Rng) -> GridCall {
     match r.below(3) {
         0 => GridCall::StreamNew { rate, channels, bits },
         1 => GridCall::FrameBufWithSize { channels, size: block },
-        _ => GridCall::Encode { rate, channels, bits, block },
+        _ => GridCall::Encode {
+            rate,
+            channels,
+            bits,
+            block,
+            empty: r.chance(0.3),
+        },
     }
 }
 
@@ -441,7 +455,7 @@ pub fn gen_case(seed: u64, index: u64) -> Case {
                 let pool: Vec<usize> = if target == 0 { vec![0, 5, 8] } else { (0..=8usize).filter(|b| *b != good && *b != 6 && *b != 7).collect() };
                 BadFill::WrongBps {
                     bps: *r.pick(&pool),
-                    len: *r.pick(&[1usize, capacity / 2, capacity]),
+                    len: *r.pick(&[0usize, 1, capacity / 2, capacity]),
                 }
             } else {
                 BadFill::Oversize {
